@@ -25,7 +25,7 @@ ASSUMPTIONS = [
     'float tolerance 1e-9 of the gross market value',
 ]
 T0 = pd.Timestamp('2021-03-01 15:00:00', tz='UTC')
-NAMES = ['EQ:A', 'EQ:AB', 'EQ:A_1', 'EQ:B', 'EQ:Z9']
+NAMES = ['EQ:A', 'EQ:AB', 'EQ:A_1', 'EQ:Brk.b', 'EQ:Z9']
 
 
 def run_program(case):
@@ -52,7 +52,10 @@ def run_program(case):
             oid = ('o%d' % (i // 3)) if case.get('repeat_order_ids') else 'o%d' % i
             port.transact_asset(q.Transaction(a, qty, t, price, oid, commission=comm))
             net[a] = old + qty
-            last[a] = F(price)
+            if qty != 0:
+                last[a] = F(price)
+            else:
+                flags.add('zero_quantity_fill')          # generated at the asset's current price: no new information
             nfills += 1
             if old != 0 and net[a] == 0:
                 closed.add(a)
@@ -108,6 +111,7 @@ def programs(draw):
     n = draw(st.one_of(st.integers(1, 10), st.integers(1, 60)))
     net = [0] * na
     ops = []
+    lastp = {}
     for i in range(n):
         a = draw(st.integers(0, na - 1))
         dt = draw(st.sampled_from([0, 0, 1, 5, 1440]))
@@ -124,9 +128,19 @@ def programs(draw):
                 qty = mag if draw(st.booleans()) else -mag
             net[a] += qty
             comm = draw(st.one_of(st.just(0.0), st.floats(0, 50).map(lambda x: round(x, 4))))
-            ops.append(['fill', dt, a, qty, draw(gen.prices), comm])
+            price = draw(gen.prices)
+            if draw(st.sampled_from([False] * 11 + [True])):
+                # an order sized down to zero shares, at the price the asset was last seen at
+                net[a] -= qty
+                qty = 0
+                price = lastp.get(a, price)
+            lastp[a] = price
+            ops.append(['fill', dt, a, qty, price, comm])
         else:
-            ops.append(['mark', dt, a, draw(gen.prices)])
+            mp = draw(gen.prices)
+            if net[a] != 0:
+                lastp[a] = mp
+            ops.append(['mark', dt, a, mp])
     return {'cash': draw(st.sampled_from([0.0, 1e4, 1e6])), 'na': na, 'ops': ops, 'starting_cash': draw(st.booleans()),
             'repeat_order_ids': draw(st.sampled_from([False, False, True]))}
 
